@@ -21,6 +21,7 @@ import (
 	stakingtypes "github.com/cosmos/cosmos-sdk/x/staking/types"
 
 	simapp "github.com/provenance-io/provenance/app"
+	sanctionkeeper "github.com/provenance-io/provenance/x/sanction/keeper"
 	markertypes "github.com/provenance-io/provenance/x/marker/types"
 	"github.com/provenance-io/provenance/x/quarantine"
 	"github.com/provenance-io/provenance/x/sanction"
@@ -86,6 +87,7 @@ type c06Obs struct {
 	temps [][3]int64 // addr id, proposal id, 1 = sanction / 0 = unsanction
 	live  []uint64
 	pinfo [][3]int64 // proposal id, 1 = in voting period, 1 = expedited (live proposals)
+	passed []uint64  // proposals that stopped being live in this step and are now PASSED
 	bals  []int64
 	deps  [][3]int64 // proposal id, total deposit A, total deposit B (live proposals)
 	balsb []int64
@@ -178,6 +180,13 @@ func (h *c06Hist) observe(ok bool) c06Obs {
 	if err != nil {
 		e.t.Fatalf("walk proposals: %v", err)
 	}
+	for _, pid := range h.lastObs.live {
+		if !containsPid(o.live, pid) {
+			if p, err := e.app.GovKeeper.Proposals.Get(h.ctx, pid); err == nil && p.Status == govv1.StatusPassed {
+				o.passed = append(o.passed, pid)
+			}
+		}
+	}
 	for i := 0; i < c06NUsers; i++ {
 		o.bals = append(o.bals, e.app.BankKeeper.GetBalance(h.ctx, h.addrs[i], e.bond).Amount.Int64())
 		o.balsb = append(o.balsb, e.app.BankKeeper.GetBalance(h.ctx, h.addrs[i], c06DenomB).Amount.Int64())
@@ -224,7 +233,10 @@ func (o c06Obs) coq() string {
 	for i, b := range o.bals {
 		bals = append(bals, fmt.Sprintf("(%d%%N, %s)", i, zI64(b)))
 	}
-	var balsb, deps, pinfo []string
+	var balsb, deps, pinfo, passed []string
+	for _, pp := range o.passed {
+		passed = append(passed, fmt.Sprintf("%d%%N", pp))
+	}
 	for _, pi := range o.pinfo {
 		pinfo = append(pinfo, fmt.Sprintf("(%d%%N, (%s, %s))", pi[0], coqBool(pi[1] == 1), coqBool(pi[2] == 1)))
 	}
@@ -234,13 +246,13 @@ func (o c06Obs) coq() string {
 	for _, d := range o.deps {
 		deps = append(deps, fmt.Sprintf("(%d%%N, %s)", d[0], pair2(d[1], d[2])))
 	}
-	return fmt.Sprintf("{| o_ok := %s; o_sanct := %s; o_perm := %s; o_temps := %s; o_live := %s; o_pinfo := %s; o_deps := %s; o_bals := %s; o_balsb := %s; o_smin := %s; o_umin := %s |}",
-		coqBool(o.ok), nList(o.sanct), nList(o.perm), coqList(temps), coqList(live), coqList(pinfo), coqList(deps), coqList(bals), coqList(balsb),
+	return fmt.Sprintf("{| o_ok := %s; o_sanct := %s; o_perm := %s; o_temps := %s; o_live := %s; o_pinfo := %s; o_passed := %s; o_deps := %s; o_bals := %s; o_balsb := %s; o_smin := %s; o_umin := %s |}",
+		coqBool(o.ok), nList(o.sanct), nList(o.perm), coqList(temps), coqList(live), coqList(pinfo), coqList(passed), coqList(deps), coqList(bals), coqList(balsb),
 		pair2(o.smin[0], o.smin[1]), pair2(o.umin[0], o.umin[1]))
 }
 
 func (o c06Obs) json() map[string]any {
-	return map[string]any{"ok": o.ok, "sanctioned": o.sanct, "permanent": o.perm, "temporary": o.temps, "live_proposals": o.live, "proposal_voting_expedited": o.pinfo,
+	return map[string]any{"ok": o.ok, "sanctioned": o.sanct, "permanent": o.perm, "temporary": o.temps, "live_proposals": o.live, "proposal_voting_expedited": o.pinfo, "passed_in_this_step": o.passed,
 		"total_deposits": o.deps, "balances": o.bals, "balances_b": o.balsb, "immediate_sanction_min": o.smin, "immediate_unsanction_min": o.umin}
 }
 
@@ -536,6 +548,104 @@ func opFund(to int, amt int64) c06Op {
 	}}
 }
 
+func containsPid(xs []uint64, p uint64) bool {
+	for _, x := range xs {
+		if x == p {
+			return true
+		}
+	}
+	return false
+}
+
+// ---- store keys and raw store ----
+
+func coqBytes(b []byte) string {
+	items := make([]string, len(b))
+	for i, x := range b {
+		items[i] = fmt.Sprintf("%d%%N", x)
+	}
+	return coqList(items)
+}
+
+// c06KeyCases: the key constructors of x/sanction/keeper/keys.go against the byte-level model.
+func c06KeyCases(r *rand.Rand, w *CaseWriter) {
+	var addrs [][]byte
+	base := []byte(addrN(42))
+	long := append(append([]byte{}, base...), []byte("extension_12")...)
+	addrs = append(addrs, base, long, base[:19], []byte{0x00}, []byte{0xFF}, make([]byte, 20), make([]byte, 32))
+	for _, last := range []byte{0x00, 0xFF, 0x7F} {
+		a20, a32 := make([]byte, 20), make([]byte, 32)
+		r.Read(a20)
+		copy(a32, a20)
+		r.Read(a32[20:])
+		a20[19], a32[31] = last, last
+		addrs = append(addrs, a20, a32)
+	}
+	ff := make([]byte, 255)
+	for i := range ff {
+		ff[i] = 0xFF
+	}
+	addrs = append(addrs, ff)
+	addrs = append(addrs, c06Protected()[0], c06Protected()[1])
+	pids := []uint64{0, 1, 255, 256, 257, 65535, 65536, 1<<32 - 1, 1 << 32, 1<<56 - 1, 1 << 56, 1<<63 - 1, 1 << 63, 1<<64 - 1, uint64(r.Int63()), uint64(r.Int63()) << 1}
+	for _, a := range addrs {
+		for _, pid := range pids {
+			p := pid
+			term := fmt.Sprintf("CKeys %s %d%%N %s %s %s %s %s", coqBytes(a), pid,
+				coqBytes(sanctionkeeper.CreateSanctionedAddrKey(a)), coqBytes(sanctionkeeper.CreateTemporaryAddrPrefix(a)),
+				coqBytes(sanctionkeeper.CreateTemporaryKey(a, pid)), coqBytes(sanctionkeeper.CreateProposalTempIndexPrefix(&p)),
+				coqBytes(sanctionkeeper.CreateProposalTempIndexKey(pid, a)))
+			w.Add(term, map[string]any{"kind": "keys", "address_len": len(a), "address_last_byte": a[len(a)-1], "proposal_id": pid})
+			w.Count("key_cases")
+			w.Nontrivial(fmt.Sprintf("keys/%x/%d", a, pid))
+		}
+	}
+}
+
+// storeCase dumps the sanction store of the history's context with what the keeper answers.
+func (h *c06Hist) storeCase(w *CaseWriter, hi int) {
+	store := h.ctx.KVStore(h.e.app.GetKey(sanction.StoreKey))
+	it := store.Iterator(nil, nil)
+	var raw []string
+	nTemp := 0
+	for ; it.Valid(); it.Next() {
+		k, v := it.Key(), it.Value()
+		if len(k) == 0 || k[0] == 0 { // params
+			continue
+		}
+		if len(v) != 1 {
+			h.e.t.Fatalf("sanction store value of %d bytes under key %x", len(v), k)
+		}
+		if k[0] == 2 {
+			nTemp++
+		}
+		raw = append(raw, fmt.Sprintf("(%s, %d%%N)", coqBytes(k), v[0]))
+	}
+	it.Close()
+	var addrs, un, listing []string
+	for i, a := range h.addrs {
+		addrs = append(addrs, fmt.Sprintf("(%s, %s)", coqBytes(a), coqBool(h.e.app.SanctionKeeper.IsSanctionedAddr(h.ctx, a))))
+		if i >= c06NUsers {
+			un = append(un, coqBytes(a))
+		}
+	}
+	h.e.app.SanctionKeeper.IterateTemporaryEntries(h.ctx, nil, func(addr sdk.AccAddress, pid uint64, isSanction bool) bool {
+		v := 0
+		if isSanction {
+			v = 1
+		}
+		listing = append(listing, fmt.Sprintf("(%s, %d%%N, %d%%N)", coqBytes(addr), pid, v))
+		return false
+	})
+	term := fmt.Sprintf("CStore %s %s\n    %s\n    %s", coqList(un), coqList(addrs), coqList(raw), coqList(listing))
+	w.Add(term, map[string]any{"kind": "store", "index": hi, "keys": len(raw), "temporary_entries": len(listing)})
+	w.Count("store_cases")
+	if nTemp > 0 {
+		w.Count("store_cases_with_temporary_entries")
+		w.Nontrivial(fmt.Sprintf("store/%d/%s", hi, strings.Join(raw, "|")))
+	}
+}
+
 // ---- generators ----
 
 func pick64(r *rand.Rand, xs ...int64) int64 { return xs[r.Intn(len(xs))] }
@@ -655,16 +765,34 @@ func (h *c06Hist) votingPid(r *rand.Rand) uint64 {
 func (h *c06Hist) randOp(r *rand.Rand) c06Op {
 	nlive := len(h.lastObs.live)
 	x := r.Intn(100)
+	for _, pi := range h.lastObs.pinfo {
+		// an expedited proposal is being voted on: let time pass more often, so that it is tallied
+		if pi[1] == 1 && pi[2] == 1 && r.Intn(5) < 2 {
+			return opNewBlockVP(h.now+pick64(r, 1, 100, 150, 300), pick64(r, 100, 250, 400))
+		}
+		if pi[1] == 1 && pi[2] == 1 && r.Intn(12) == 0 {
+			// governance changes the immediate minimums while an expedited proposal is being voted on:
+			// its conversion is the next time the hook looks at it
+			return opDirect(h, true, c06Msg{kind: 2, a: c06Thresholds[r.Intn(len(c06Thresholds))], b: c06Thresholds[r.Intn(len(c06Thresholds))]}, 0)
+		}
+	}
 	switch {
 	case x < 14 && nlive < 4 || nlive == 0 && x < 40:
 		var ms []c06Msg
 		for i, n := 0, 1+r.Intn(2); i < n; i++ {
 			ms = append(ms, h.randMsg(r))
 		}
-		if (h.lastObs.smin == [2]int64{0, 0} || h.lastObs.smin[0] > c06GovMin || h.lastObs.smin[1] > c06GovMinB) && r.Intn(4) == 0 {
-			// a proposal that can reach the vote but whose last message fails on execution
-			ms = append(ms, c06Msg{kind: 0, addrs: []int{r.Intn(c06NUsers), c06IDGov + r.Intn(2)}})
+		if r.Intn(5) == 0 {
+			// opposite directions for one address in one proposal
+			a := r.Intn(c06NUsers)
+			k := r.Intn(2)
+			ms = append(ms, c06Msg{kind: k, addrs: []int{a}}, c06Msg{kind: 1 - k, addrs: []int{a, r.Intn(c06NUsers)}})
 		}
+		if (h.lastObs.smin == [2]int64{0, 0} || h.lastObs.smin[0] > c06GovMin || h.lastObs.smin[1] > h.govMinB) && r.Intn(4) == 0 {
+			// a proposal that can reach the vote but whose last message fails on execution
+			ms = append(ms, c06Msg{kind: 0, addrs: []int{r.Intn(c06NUsers), c06IDGov + r.Intn(c06NProt)}})
+		}
+		expedited := r.Intn(4) == 0
 		who := r.Intn(c06NUsers)
 		dep := h.depositAmount(r)
 		if r.Intn(5) == 0 {
@@ -674,10 +802,13 @@ func (h *c06Hist) randOp(r *rand.Rand) c06Op {
 			dep = 0
 		}
 		depB := h.depositAmountB(r)
-		if dep >= c06GovMin && depB < c06GovMinB && r.Intn(10) < 7 {
-			depB = c06GovMinB + pick64(r, 0, 0, 1, 15)
+		if dep >= c06GovMin && depB < h.govMinB && r.Intn(10) < 7 {
+			depB = h.govMinB + pick64(r, 0, 0, 1, 15)
 		}
-		return opSubmit2(h, who, ms, dep, depB, pick64(r, 100, 200, 300), pick64(r, 100, 250, 400))
+		if expedited && r.Intn(3) != 0 {
+			dep = c06ExpMin + pick64(r, 0, 0, 1, -1)
+		}
+		return opSubmit3(h, who, ms, dep, depB, pick64(r, 100, 200, 300), pick64(r, 100, 250, 400), expedited)
 	case x < 28:
 		amt, amtB := h.depositAmount(r), h.depositAmountB(r)
 		if amt < 0 {
@@ -692,8 +823,8 @@ func (h *c06Hist) randOp(r *rand.Rand) c06Op {
 		if amt <= 0 && amtB <= 0 && r.Intn(3) != 0 {
 			amt = 10
 		}
-		if amt >= c06GovMin-1 && amtB < c06GovMinB && r.Intn(10) < 6 {
-			amtB = c06GovMinB
+		if amt >= c06GovMin-1 && amtB < h.govMinB && r.Intn(10) < 6 {
+			amtB = h.govMinB
 		}
 		return opDeposit2(r.Intn(c06NUsers), h.livePid(r), amt, amtB, pick64(r, 100, 250, 400))
 	case x < 40:
@@ -781,33 +912,72 @@ func TestC06(t *testing.T) {
 	if err := app.GovKeeper.Params.Set(baseCtx, gp); err != nil {
 		t.Fatal(err)
 	}
+	permille := func(name, v string) int64 {
+		d := sdkmath.LegacyMustNewDecFromStr(v).MulInt64(1000)
+		if !d.IsInteger() || gp.Quorum == "" || !sdkmath.LegacyMustNewDecFromStr(gp.Quorum).IsPositive() {
+			t.Fatalf("gov param %s = %s (quorum %s) is outside what the model covers", name, v, gp.Quorum)
+		}
+		return d.TruncateInt64()
+	}
+	e.thr, e.expThr, e.veto = permille("threshold", gp.Threshold), permille("expedited_threshold", gp.ExpeditedThreshold), permille("veto_threshold", gp.VetoThreshold)
 
 	nh := scale(120, 2500)
 	for hi := 0; hi < nh; hi++ {
 		c06History(e, r, w, hi)
 	}
+	c06KeyCases(r, w)
 	c06RouteMatrix(e, r, w)
+	c06FeeRoutes(t, r, w)
 	w.Flush(t)
 }
 
 func c06History(e *c06Env, r *rand.Rand, w *CaseWriter, hi int) {
 	ctx, _ := e.base.CacheContext()
-	h := &c06Hist{e: e, ctx: ctx, now: c06T0, proposer: map[uint64]int{}}
+	h := &c06Hist{e: e, ctx: ctx, now: c06T0, proposer: map[uint64]int{}, govMinB: c06GovMinB, dp: 200}
 	for i := 0; i < c06NUsers; i++ {
 		a := addrN(6000 + hi*10 + i)
+		if i == 3 {
+			// a 32-byte address whose first 20 bytes are account 2's address: their store keys share
+			// everything up to the length byte; last byte 0xFF or 0x00
+			b := make([]byte, 32)
+			copy(b, h.addrs[2])
+			copy(b[20:], fmt.Sprintf("long%08d", hi))
+			b[31] = byte(0xFF * (hi % 2))
+			a = sdk.AccAddress(b)
+		}
 		ensureAccount(e.app, ctx, a)
-		fund(e.t, e.app, ctx, a, sdk.NewCoins(sdk.NewInt64Coin(e.bond, int64(3000+r.Intn(4000))), sdk.NewInt64Coin(c06DenomB, int64(150+r.Intn(300)))))
+		fund(e.t, e.app, ctx, a, sdk.NewCoins(sdk.NewInt64Coin(e.bond, int64(7000+r.Intn(6000))), sdk.NewInt64Coin(c06DenomB, int64(150+r.Intn(300)))))
 		h.addrs = append(h.addrs, a)
 	}
-	h.addrs = append(h.addrs, e.govAddr, authtypes.NewModuleAddress(quarantine.ModuleName))
+	h.addrs = append(h.addrs, c06Protected()...)
+	// gov params of this history: burn flags, and (1 history in 8) a gov minimum in the bond denom
+	// only, so that denom B is no deposit denom at all
+	burnVeto, burnQuorum, burnPrevote := r.Intn(4) != 0, r.Intn(4) == 0, r.Intn(4) == 0
+	if hi < 16 {
+		burnVeto, burnQuorum, burnPrevote = true, false, false
+	}
+	if hi >= 16 && r.Intn(8) == 0 {
+		h.govMinB = 0
+	}
+	gp, err := e.app.GovKeeper.Params.Get(ctx)
+	if err != nil {
+		e.t.Fatal(err)
+	}
+	gp.MinDeposit = h.coins2(c06GovMin, h.govMinB)
+	gp.BurnVoteVeto, gp.BurnVoteQuorum, gp.BurnProposalDepositPrevote = burnVeto, burnQuorum, burnPrevote
+	if err := e.app.GovKeeper.Params.Set(ctx, gp); err != nil {
+		e.t.Fatal(err)
+	}
 	// sanction params for this history: thresholds below and above the gov minimum, or off
 	sm := c06Thresholds[r.Intn(len(c06Thresholds))]
 	um := c06Thresholds[r.Intn(len(c06Thresholds))]
-	if hi < 3 {
+	switch {
+	case hi < 3 || hi == 6 || hi == 7 || hi == 8 || hi == 9 || hi == 10:
 		sm, um = [2]int64{300, 0}, [2]int64{400, 0}
-	}
-	if hi == 3 {
+	case hi == 3:
 		sm, um = [2]int64{300, 10}, [2]int64{400, 10}
+	case hi == 4 || hi == 5 || hi == 11:
+		sm, um = [2]int64{0, 0}, [2]int64{0, 0}
 	}
 	if err := e.app.SanctionKeeper.SetParams(ctx, &sanction.Params{ImmediateSanctionMinDeposit: h.coins2(sm[0], sm[1]), ImmediateUnsanctionMinDeposit: h.coins2(um[0], um[1])}); err != nil {
 		e.t.Fatal(err)
@@ -819,6 +989,9 @@ func c06History(e *c06Env, r *rand.Rand, w *CaseWriter, hi int) {
 	ob0 := h.observe(true)
 	h.lastObs = ob0
 
+	san := func(as ...int) c06Msg { return c06Msg{kind: 0, addrs: as} }
+	uns := func(as ...int) c06Msg { return c06Msg{kind: 1, addrs: as} }
+	par := func(a, b [2]int64) c06Msg { return c06Msg{kind: 2, a: a, b: b} }
 	var script []c06Op
 	switch hi {
 	case 0:
@@ -859,8 +1032,7 @@ func c06History(e *c06Env, r *rand.Rand, w *CaseWriter, hi int) {
 			opNewBlock(c06T0 + 100), opNewBlock(c06T0 + 101),
 			opSend(1, 4, 5), opSend(2, 4, 5),
 		}
-	}
-	if hi == 3 {
+	case 3:
 		// two-denom immediate minimums (300 A + 10 B / 400 A + 10 B): a deposit covering only one of
 		// the denoms must not create temporary entries; completing the other denom does
 		script = []c06Op{
@@ -879,6 +1051,129 @@ func c06History(e *c06Env, r *rand.Rand, w *CaseWriter, hi int) {
 			opSend(4, 0, 5),
 			opDeposit2(0, firstID+2, 1, 0, 400),
 			opSend(4, 0, 5),
+		}
+	case 4:
+		// REGRESSION of the repaired chain halt: the immediate minimum is off; an expedited proposal
+		// names a protected address; governance switches the minimum on; at the end of the expedited
+		// voting period the proposal is converted and the sanction hook runs in the EndBlocker: the
+		// block must go on (before the repair the hook panicked there), no entry of that hook run
+		// is kept, the converted proposal is rejected by the next block
+		script = []c06Op{
+			opSubmit3(h, 0, []c06Msg{san(1, c06IDGov)}, c06ExpMin, 0, 200, 200, true),
+			opDirect(h, true, par([2]int64{300, 0}, [2]int64{400, 0}), 0),
+			opSend(1, 2, 10),
+			opDeposit(4, firstID, 1, 200), // the hook in a transaction: the deposit is refused
+			opNewBlockVP(c06T0+100, 200),  // (EndBlocker of the block at T0: nothing is due)
+			opNewBlockVP(c06T0+101, 200),  // EndBlocker at T0+100 = expedited end: conversion, hook error ignored
+			opSend(1, 2, 10),
+			opDeposit(4, firstID, 1, 200),
+			opNewBlockVP(c06T0+200, 200),
+			opNewBlockVP(c06T0+201, 200), // EndBlocker at T0+200 = regular end (start + 200): rejected (no votes)
+			opSend(1, 2, 10),
+		}
+	case 5:
+		// expedited proposals: the hook sees a converted proposal twice (entries created at the
+		// conversion with the params of that moment), a conversion whose new end is already over is
+		// tallied by the next block; an expedited proposal that passes; one that passes only as a
+		// regular proposal (60 % yes)
+		script = []c06Op{
+			opSubmit3(h, 0, []c06Msg{san(1), uns(2)}, c06ExpMin, 0, 200, 200, true), // id+0: nobody votes
+			opSubmit3(h, 3, []c06Msg{san(2)}, c06ExpMin, 0, 200, 200, true),         // id+1: passes expedited
+			opSubmit3(h, 4, []c06Msg{san(4)}, c06ExpMin, 0, 200, 200, true),         // id+2: 60 % yes
+			opBallot(firstID+1, c06Yes),
+			opBallot(firstID+2, c06Ballot{600, 0, 400, 0}),
+			opDirect(h, true, par([2]int64{300, 0}, [2]int64{0, 0}), 0), // sanction minimum on, unsanction minimum off
+			opSend(1, 3, 10), opSend(4, 3, 10),
+			opNewBlockVP(c06T0+100, 50),
+			opNewBlockVP(c06T0+101, 50), // all three end: id+0 and id+2 converted (new end = start + 50, over), id+1 passed
+			opSend(1, 3, 10), opSend(2, 3, 10), opSend(4, 3, 10),
+			opBallot(firstID+2, c06Ballot{600, 0, 400, 0}), // votes were deleted by the first tally
+			opNewBlockVP(c06T0+102, 50), // id+0 rejected (no votes), id+2 passed as a regular proposal
+			opSend(1, 3, 10), opSend(2, 3, 10), opSend(4, 3, 10),
+		}
+	case 6:
+		// the other resolutions: quorum not reached (no vote), everybody abstains, veto (deposits
+		// burned), rejected by a weighted vote, each with temporary entries to clean up
+		script = []c06Op{
+			opSubmit2(h, 0, []c06Msg{san(1)}, 1000, 20, 200, 100),
+			opSubmit2(h, 0, []c06Msg{san(2)}, 1000, 20, 200, 100),
+			opSubmit2(h, 3, []c06Msg{san(4)}, 1000, 20, 200, 100),
+			opSubmit2(h, 3, []c06Msg{uns(1)}, 1000, 20, 200, 100),
+			opBallot(firstID+1, c06Abstain),
+			opBallot(firstID+2, c06Veto),
+			opBallot(firstID+3, c06Ballot{500, 0, 500, 0}),
+			opSend(1, 0, 5), opSend(2, 0, 5), opSend(4, 0, 5),
+			opNewBlock(c06T0 + 100), opNewBlock(c06T0 + 101),
+			opSend(1, 0, 5), opSend(2, 0, 5), opSend(4, 0, 5),
+		}
+	case 7:
+		// several messages for one address in opposite directions: the later message wins for the
+		// temporary entry, and for the permanent entry when the proposal passes
+		script = []c06Op{
+			opDirect(h, true, san(2), 0),
+			opSubmit2(h, 0, []c06Msg{san(1), uns(1, 2), san(2)}, 1000, 20, 200, 100),   // 1: unsanction wins, 2: sanction wins
+			opSubmit2(h, 0, []c06Msg{uns(4), san(4, 3), uns(3)}, 1000, 20, 200, 100),   // 4: sanction wins, 3: unsanction wins
+			opSubmit2(h, 0, []c06Msg{san(0), uns(0)}, 350, 0, 200, 100),                // only the sanction minimum is covered
+			opSend(1, 4, 5), opSend(2, 4, 5), opSend(3, 1, 5), opSend(4, 1, 5), opSend(0, 1, 5),
+			opDeposit(1, firstID+2, 50, 100), // now both minimums: the unsanction (later message) wins
+			opSend(0, 1, 5),
+			opVote(firstID, true), opVote(firstID+1, true),
+			opNewBlock(c06T0 + 100), opNewBlock(c06T0 + 101),
+			opSend(1, 4, 5), opSend(2, 4, 5), opSend(3, 1, 5), opSend(4, 1, 5),
+		}
+	case 8:
+		// passed, but a later message fails: the permanent changes of the earlier messages and their
+		// deletion of OTHER proposals' temporary entries are rolled back; only its own entries go
+		script = []c06Op{
+			opDirect(h, true, san(2), 0),
+			opSubmit(h, 0, []c06Msg{san(1), uns(2)}, 400, 300, 400),                      // id+0 stays live: entries for 1 and 2
+			opDirect(h, true, par([2]int64{1500, 0}, [2]int64{1500, 0}), 0),               // minimums above the next deposits
+			opSubmit2(h, 3, []c06Msg{uns(1), san(2), san(4), san(c06IDQuar)}, 1000, 20, 200, 100), // id+1 passes, 4th message fails
+			opDeposit(3, firstID+1, 600, 100),                                             // 1600 >= 1500: but the hook fails (protected address): refused
+			opVote(firstID+1, true),
+			opNewBlock(c06T0 + 100), opNewBlock(c06T0 + 101),
+			opSend(1, 0, 5), opSend(2, 0, 5), opSend(4, 0, 5),
+		}
+	case 9:
+		// interleaved proposals whose deposits arrive in the opposite order of their ids
+		script = []c06Op{
+			opSubmit(h, 0, []c06Msg{san(1, 2)}, 0, 300, 400), // id+0
+			opSubmit(h, 3, []c06Msg{uns(1)}, 0, 300, 400),    // id+1
+			opSubmit(h, 3, []c06Msg{san(1)}, 0, 300, 400),    // id+2
+			opDeposit(4, firstID+2, 300, 400), opSend(1, 0, 5),
+			opDeposit(4, firstID+1, 400, 400), opSend(1, 0, 5), // id+2 still wins
+			opDeposit(4, firstID, 300, 400), opSend(1, 0, 5), opSend(2, 0, 5),
+			opCancel(3, firstID+2), // (known finding: its entry stays and still wins)
+			opSend(1, 0, 5),
+		}
+	case 10:
+		// a resolution cleans exactly its own entries: rejected and expired proposals leave the other
+		// proposals' entries for the same address; a PASSED one deletes them (by design)
+		script = []c06Op{
+			opSubmit(h, 0, []c06Msg{san(1, 2)}, 400, 100, 100),            // id+0 expires at +100
+			opSubmit2(h, 0, []c06Msg{uns(1), san(2)}, 1000, 20, 300, 150), // id+1 rejected at +150
+			opSubmit2(h, 3, []c06Msg{san(1, 2)}, 1000, 20, 300, 400),      // id+2 live throughout
+			opSubmit2(h, 3, []c06Msg{uns(2)}, 1000, 20, 300, 250),         // id+3 passes at +250
+			opVote(firstID+1, false), opVote(firstID+3, true),
+			opNewBlock(c06T0 + 100), opNewBlock(c06T0 + 150), opSend(1, 0, 5),
+			opNewBlock(c06T0 + 151), opSend(1, 0, 5), opSend(2, 0, 5),
+			opNewBlock(c06T0 + 250), opNewBlock(c06T0 + 251), opSend(2, 0, 5),
+			opDeposit(4, firstID+2, 1, 400), opSend(2, 0, 5), // the next deposit brings id+2's entry for 2 back
+		}
+	case 11:
+		// params changed by governance between submission and deposits; deposits in several steps
+		script = []c06Op{
+			opSubmit2(h, 0, []c06Msg{san(1)}, 500, 5, 300, 400), // feature off: nothing
+			opSend(1, 0, 5),
+			opDirect(h, true, par([2]int64{700, 30}, [2]int64{0, 0}), 0), // on: 700 A + 30 B
+			opSend(1, 0, 5),                                          // a params change alone creates nothing
+			opDeposit2(4, firstID, 200, 0, 400), opSend(1, 0, 5),     // 700 A, 5 B: one denom only
+			opDeposit2(4, firstID, 0, 24, 400), opSend(1, 0, 5),      // 29 B: one short
+			opDirect(h, true, par([2]int64{800, 29}, [2]int64{0, 0}), 0), opSend(1, 0, 5),
+			opDeposit2(3, firstID, 99, 0, 400), opSend(1, 0, 5),      // 799 A
+			opDeposit2(3, firstID, 1, 0, 400), opSend(1, 0, 5),       // 800 A + 29 B: now
+			opDirect(h, true, par([2]int64{0, 0}, [2]int64{0, 0}), 0), opSend(1, 0, 5), // off again: the entry stays until resolution
+			opNewBlock(c06T0 + 300), opSend(1, 0, 5),
 		}
 	}
 	n := 25 + r.Intn(25)
@@ -911,12 +1206,42 @@ func c06History(e *c06Env, r *rand.Rand, w *CaseWriter, hi int) {
 			accepted++
 			w.Count("ops_accepted")
 			w.Count("accepted:" + op.kind)
+			if op.kind == "submit" && strings.HasSuffix(op.term, " true") {
+				w.Count("accepted:submit expedited")
+				for _, pi := range ob.pinfo {
+					if pi[1] == 1 && pi[2] == 1 && !containsPid(before.live, uint64(pi[0])) {
+						w.Count("accepted:submit expedited, voting period entered at once")
+					}
+				}
+			}
 			kinds[op.kind] = true
 		} else {
 			w.Count("ops_rejected")
 		}
 		if len(ob.temps) > 0 {
 			tempsSeen = true
+		}
+		// expedited proposals converted to regular ones by this step
+		for _, pb := range before.pinfo {
+			for _, pa := range ob.pinfo {
+				if pa[0] == pb[0] && pb[2] == 1 && pa[2] == 0 {
+					w.Count("expedited_proposal_converted")
+					nb, na := 0, 0
+					for _, te := range before.temps {
+						if te[1] == pa[0] {
+							nb++
+						}
+					}
+					for _, te := range ob.temps {
+						if te[1] == pa[0] {
+							na++
+						}
+					}
+					if na > nb {
+						w.Count("expedited_proposal_converted_creating_temp_entries")
+					}
+				}
+			}
 		}
 		// classify what happened to proposals that stopped being live
 		for _, pid := range before.live {
@@ -944,6 +1269,23 @@ func c06History(e *c06Env, r *rand.Rand, w *CaseWriter, hi int) {
 				}
 			} else if p, err := e.app.GovKeeper.Proposals.Get(h.ctx, pid); err == nil {
 				what = strings.ToLower(strings.TrimPrefix(p.Status.String(), "PROPOSAL_STATUS_"))
+				if tr := p.FinalTallyResult; tr != nil && p.Status == govv1.StatusRejected {
+					y, _ := sdkmath.NewIntFromString(tr.YesCount)
+					a, _ := sdkmath.NewIntFromString(tr.AbstainCount)
+					n, _ := sdkmath.NewIntFromString(tr.NoCount)
+					v, _ := sdkmath.NewIntFromString(tr.NoWithVetoCount)
+					tot := y.Add(a).Add(n).Add(v)
+					switch {
+					case tot.IsZero():
+						what += " (quorum not reached)"
+					case a.Equal(tot):
+						what += " (all abstain)"
+					case v.MulRaw(1000).GT(tot.MulRaw(e.veto)):
+						what += " (veto)"
+					default:
+						what += " (threshold not reached)"
+					}
+				}
 			}
 			w.Count("resolution:" + what)
 			if hadTemps {
@@ -960,12 +1302,16 @@ func c06History(e *c06Env, r *rand.Rand, w *CaseWriter, hi int) {
 	if cancelledWithTemps {
 		w.Count("histories_with_cancelled_proposal_holding_temp_entries")
 	}
-	term := fmt.Sprintf("CHist [%d%%N; %d%%N] %s [0%%N; 1%%N; 2%%N; 3%%N; 4%%N; 5%%N; 6%%N] [0%%N; 1%%N; 2%%N; 3%%N; 4%%N] %d%%N %s\n    (%s)\n    %s",
-		c06IDGov, c06IDQuar, pair2(c06GovMin, c06GovMinB), firstID, zI64(c06T0), ob0.coq(), coqList(steps))
-	w.Add(term, map[string]any{"kind": "history", "index": hi, "immediate_sanction_min": sm, "immediate_unsanction_min": um, "gov_min_deposit": [2]int64{c06GovMin, c06GovMinB}, "denoms": "pairs are (bond denom, bbbcoin)",
-		"first_proposal_id": firstID, "universe": "0-4 plain accounts, 5 gov module account, 6 quarantine funds holder", "initial": ob0.json(), "steps": recs,
+	cfg := fmt.Sprintf("{| c_unsanct := [5%%N; 6%%N; 7%%N; 8%%N; 9%%N]; c_gov_min := %s; c_exp_min := %s; c_thr := %d; c_exp_thr := %d; c_veto := %d; c_burn_veto := %s; c_burn_quorum := %s; c_burn_prevote := %s |}",
+		pair2(c06GovMin, h.govMinB), pair2(c06ExpMin, 0), e.thr, e.expThr, e.veto, coqBool(burnVeto), coqBool(burnQuorum), coqBool(burnPrevote))
+	term := fmt.Sprintf("CHist %s [0%%N; 1%%N; 2%%N; 3%%N; 4%%N; 5%%N; 6%%N; 7%%N; 8%%N; 9%%N] [0%%N; 1%%N; 2%%N; 3%%N; 4%%N] %d%%N %s\n    (%s)\n    %s",
+		cfg, firstID, zI64(c06T0), ob0.coq(), coqList(steps))
+	w.Add(term, map[string]any{"kind": "history", "index": hi, "immediate_sanction_min": sm, "immediate_unsanction_min": um, "gov_min_deposit": [2]int64{c06GovMin, h.govMinB}, "expedited_min_deposit": [2]int64{c06ExpMin, 0}, "denoms": "pairs are (bond denom, bbbcoin)",
+		"burn_veto_quorum_prevote": []bool{burnVeto, burnQuorum, burnPrevote},
+		"first_proposal_id": firstID, "universe": "0-4 plain accounts (3 = 32-byte address extending 2's bytes), 5 gov module account, 6 quarantine funds holder, 7 fee collector, 8 bonded pool, 9 marker module", "initial": ob0.json(), "steps": recs,
 		"accepted": accepted, "ops": total})
 	w.Count("histories")
+	h.storeCase(w, hi)
 	if tempsSeen && resolved > 0 && sanctMove > 0 && len(kinds) >= 4 {
 		w.Nontrivial(fmt.Sprintf("h%d:%s", hi, strings.Join(steps, "|")))
 	}
